@@ -9,7 +9,7 @@ from ..core import AnalysisError, norm
 from .. import symx, spec, aud, sign
 from ..aud import REL, W
 from ..symx import Tx, E, I, T, S, is_zero, leaves, val_atoms, fmt_cond, eval_val, rows
-from ..astutil import walk_local, stores, parent, find_calls
+from ..astutil import walk_local, stores, parent, find_calls, returned_names
 from ..cfg import whole_collection
 
 META = dict(
@@ -105,7 +105,9 @@ def r1_r2_plurality(chk):
            node=lam, values=sorted(map(str, vals)), upper_bound=norm(ub) if ub else None, u=norm(uu) if uu else None)
     chk.exhaustive = True
     # one assertion per pair, labelled with the pair
-    sts = [(t, v, s) for t, v, s in stores(fn) if isinstance(t, ast.Subscript) and norm(t.value) == "assertions"]
+    rn = [r for r in returned_names(fn) if isinstance(r, str)]
+    dname = rn[0] if len(set(rn)) == 1 else None  # the dict of assertions is what the function returns
+    sts = [(t, v, s) for t, v, s in stores(fn) if isinstance(t, ast.Subscript) and dname and norm(t.value) == dname]
     ok = False
     detail = {}
     if len(sts) == 1:
@@ -153,15 +155,17 @@ def r3_supermajority(chk):
     tx = outer_tx(idx)
     term, _ = aud.lambda_term(lam, tx, arg_names=["c"])
     f = "contest.share_to_win"
+    hov_calls = [c for c in ast.walk(lam.body) if isinstance(c, ast.Call) and norm(c.func).endswith(".has_one_vote") and len(c.args) == 2]
+    cands_name = norm(hov_calls[0].args[1]) if hov_calls and isinstance(hov_calls[0].args[1], ast.Name) else "cands"
     want = outer_tx(idx).expr(ast.parse(
-        f"(CVR.as_vote(c.get_vote_for(contest.id, winner)) / (2 * {f})) if c.has_one_vote(contest.id, cands) else 1/2", mode="eval").body)
+        f"(CVR.as_vote(c.get_vote_for(contest.id, winner)) / (2 * {f})) if c.has_one_vote(contest.id, {cands_name}) else 1/2", mode="eval").body)
     spec.compare(chk, "C02.R3", where, "form-W/(2f)-or-1/2",
                  "assorter(c) == W/(2f) when the ballot has exactly one mark among the candidates, else 1/2, with f the contest's "
                  "own share_to_win and W the winner's mark", term, want, node=lam)
     # cands = losers + [winner]
     ok = False
-    cdefs = [s for s in fn.body if isinstance(s, ast.Assign) and norm(s.targets[0]) == "cands"]
-    apps = [c for c in walk_local(fn) if isinstance(c, ast.Call) and norm(c.func) == "cands.append"]
+    cdefs = [s for s in fn.body if isinstance(s, ast.Assign) and norm(s.targets[0]) == cands_name]
+    apps = [c for c in walk_local(fn) if isinstance(c, ast.Call) and norm(c.func) == f"{cands_name}.append"]
     if len(cdefs) == 1:
         v = norm(cdefs[0].value)
         if v in ("loser.copy()", "list(loser)", "loser[:]") and len(apps) == 1 and norm(apps[0].args[0]) == "winner":
